@@ -33,9 +33,9 @@ The code is modelled as it is, remaining defects included (the optional-parent f
 prefix-only back-off of optionals, nested tuples counted as one optional field, `"/"` parents).
 
 `Seg.test`, `passFields`, `matchNested`, `matchChildren`, `stripBase`, `matchRoute` take a version
-`k : Ver`: `.cur` is the Rust code as it is now (after the `fix:` commits fix-c14-1..4: static
+`k : Ver`: `.cur` is the Rust code as it is now (after the `fix:` commits fix-c14-1..5: static
 segments end at a segment boundary, param segments no longer swallow a character, the base matches
-whole segments, the optional fallback no longer unwraps); `.old` is the code before these repairs (kept
+whole segments, the optional fallback no longer unwraps and re-parses the parent on the empty prefix); `.old` is the code before these repairs (kept
 for the regression witnesses); `.aligned` is the *segment-aligned variant* of `.cur` (an atom is only
 tested at the end of the path or in front of a `/`; the base is one aligned static prefix).  That
 variant exists only to state the decidable input class `SegmentAligned d path := matchRoute .cur d
@@ -47,7 +47,7 @@ namespace Leptos.Router
 abbrev Path := List Char
 abbrev Params := List (List Char × List Char)
 
-/-- which code is modelled: `old` = the router before the `fix:` commits fix-c14-1..4 (kept for the
+/-- which code is modelled: `old` = the router before the `fix:` commits fix-c14-1..5 (kept for the
 regression witnesses), `cur` = the code as it is now, `aligned` = `cur` with every atom tested only at a
 segment boundary (used to state the input class `SegmentAligned`) -/
 inductive Ver where
@@ -356,9 +356,11 @@ def matchNested (k : Ver) : Route → Nat → Path → NOut
             | .panic => .panic
             | .none => .none
             | .some inner rem =>
-              -- … and re-parse the parent's params on what is left in front
+              -- … and re-parse the parent's params on what is left in front: nothing, the children
+              -- were matched from the start of `path` (fix-c14-5; before, `trim_end_matches` of the
+              -- child's own `matched` ++ `remaining`, which ignores grandchildren)
               -- (`unwrap()` before fix-c14-4, `?` now)
-              match segs.test k (trimEnd (innerMatched inner ++ rem) path) with
+              match segs.test k (if k.fixed then [] else trimEnd (innerMatched inner ++ rem) path) with
               | .some np => finish pos pm.matched np.params (some inner) rem
               | .none => if k.fixed then .none else .panic
               | .panic => .panic
@@ -714,12 +716,11 @@ def baseSlashes (d : Defs) (path : Path) : Bool :=
   | _, _ => false
 
 /-- known-finding classes (the word after `fail` in the model driver's verdict).  The classes
-`static-prefix`, `unaligned-panic`, `base-slashes`, `optional-fallback-unwrap` are gone with
-fix-c14-1..4: such a failure is now `unclassified`, i.e. a violation. -/
+`static-prefix`, `unaligned-panic`, `base-slashes`, `optional-fallback-unwrap`,
+`optional-fallback-params`, `optional-fallback-overmatch` are gone with fix-c14-1..5: such a failure is now `unclassified`, i.e. a violation. -/
 inductive Class where
   | slashParent
-  | optionalParent | optionalBackoffOrder | optionalFallbackParams
-  | optionalFallbackOvermatch | nestedOptionalTuple
+  | optionalParent | optionalBackoffOrder | nestedOptionalTuple
   | unclassified (k : Kind)
   deriving Repr, DecidableEq
 
@@ -732,7 +733,6 @@ def classify (d : Defs) (path : Path) (kind : Kind) : Class :=
   | .panic => .unclassified kind
   | .routerOnly =>
     if !aligned then unaligned
-    else if anyOptParent d.tops then .optionalFallbackOvermatch
     else if anyInnerOptTuple d.tops then .nestedOptionalTuple
     else .unclassified kind
   | .flatOnly | .winner =>
@@ -741,9 +741,8 @@ def classify (d : Defs) (path : Path) (kind : Kind) : Class :=
     else if anyInnerOptTuple d.tops then .nestedOptionalTuple
     else .unclassified kind
   | .params =>
-    if anyOptParent d.tops then .optionalFallbackParams
+    if !aligned then unaligned
     else if anyInnerOptTuple d.tops then .nestedOptionalTuple
-    else if !aligned then unaligned
     else .unclassified kind
   | .winnerUnknown => .unclassified kind
 
